@@ -953,7 +953,7 @@ impl<'p> Interp<'p> {
 				}
 			}
 		}
-		let v = self.eval_block(&def.block)?;
+		let v = self.eval_fn_body(&def.block)?;
 		let v = match &def.sig.output {
 			syn::ReturnType::Type(_, t) => self.coerce(v, t),
 			_ => v,
